@@ -12,6 +12,16 @@ NOTE_COMMON = ('Trusted base: CPython, Hypothesis 6.168 as case generator, the h
 
 # id -> (design section, technique, level text, level note)
 CLAIMS = {
+    'C01': ('3/C01', 'grammar-mirroring Hypothesis generator; round-trip oracle plus independent tokenisation (generator piece list) and per-sub-model slice checks',
+            'Exploration: thousands of generated ledgers (all directive kinds, every layout-noise dimension, all parse targets, both attribution modes); '
+            'print==input, store==input, every sub-model prints its slice, tokens equal the generator\'s own tokenisation. Right level because the '
+            'property is a pure function of the input text and failures live in layout corners that a grammar-directed generator reaches cheaply.',
+            NOTE_COMMON + ' Only lark rejections (and ValueError for meaningless lexemes) define "not accepted".'),
+    'C08': ('3/C08', 'Hypothesis-generated store histories and document edit programs; positions recomputed from concatenated text (reference computation)',
+            'Exploration: after every step of random store histories (load factors 2..1000) and of edit programs on generated ledgers, get_position '
+            'and get_index of every token are compared with values recomputed from the text. Right level: the position caches are small state '
+            'machines whose stale states are reached by short histories.',
+            NOTE_COMMON),
     'C07': ('3/C07', 'Hypothesis-generated operation histories + bounded-exhaustive splice enumeration vs a Python list (model-based differential)',
             'Exploration: random histories at load factors 2..1000 and complete enumeration of single splices (LF 2-4, lengths 0..6LF) and '
             'splice pairs (LF 2, thorough); every observable of the store compared with a list after every step. Right level because the '
